@@ -1,63 +1,55 @@
+// scratch: debugging aid (not part of any check)
 package main
 
 import (
-	"crypto/sha256"
+	"context"
 	"fmt"
 	"os"
+	"runtime"
+	"strings"
 	"time"
 
-	"github.com/codenotary/immudb/embedded/ahtree"
 	"github.com/codenotary/immudb/embedded/logger"
 	"github.com/codenotary/immudb/embedded/store"
 )
 
-func refRoot(alhs [][sha256.Size]byte) [sha256.Size]byte {
-	if len(alhs) == 1 {
-		return sha256.Sum256(append([]byte{0}, alhs[0][:]...))
-	}
-	k := 1
-	for 2*k < len(alhs) {
-		k *= 2
-	}
-	l, r := refRoot(alhs[:k]), refRoot(alhs[k:])
-	b := append([]byte{1}, l[:]...)
-	b = append(b, r[:]...)
-	return sha256.Sum256(b)
-}
-
-func dump(dir string) {
-	t, err := ahtree.Open(dir+"/aht", ahtree.DefaultOptions().WithSyncThld(3).WithReadOnly(true))
-	fmt.Println("aht open", err)
-	if err != nil {
-		return
-	}
-	var ls [][sha256.Size]byte
-	for n := uint64(1); n <= t.Size(); n++ {
-		d, _ := t.DataAt(n)
-		var a [32]byte
-		copy(a[:], d)
-		ls = append(ls, a)
-		r, _ := t.RootAt(n)
-		fmt.Printf("leaf %d %x rootOk=%v\n", n, d[:4], r == refRoot(ls))
-	}
-	t.Close()
+func countIndexers() int {
+	buf := make([]byte, 1<<22)
+	n := runtime.Stack(buf, true)
+	return strings.Count(string(buf[:n]), "(*indexer).doIndexing(")
 }
 
 func main() {
-	dir := os.Args[1]
-	dump(dir)
-	o := store.DefaultOptions().WithSynced(false).WithEmbeddedValues(true).WithSyncFrequency(time.Millisecond).WithMaxTxEntries(4).WithMaxKeyLen(16).WithMaxValueLen(128).WithLogger(logger.NewSimpleLogger("x", os.Stdout))
-	o.WithAHTOptions(o.AHTOpts.WithWriteBufferSize(1 << 12).WithSyncThld(3))
-	st, err := store.Open(dir, o)
+	dir, _ := os.MkdirTemp("", "zombie")
+	defer os.RemoveAll(dir)
+	opts := store.DefaultOptions().WithSynced(false).WithLogger(logger.NewMemoryLoggerWithLevel(logger.LogError))
+	opts.WithIndexOptions(opts.IndexOpts.WithCompactionThld(1))
+	st, err := store.Open(dir, opts)
 	if err != nil {
 		panic(err)
 	}
-	fmt.Println("committed", st.LastCommittedTxID(), "pre", st.LastPrecommittedTxID())
-	for id := uint64(1); id <= st.LastPrecommittedTxID(); id++ {
-		h, _ := st.ReadTxHeader(id, true, false)
-		a := h.Alh()
-		fmt.Printf("tx %d alh %x\n", id, a[:4])
+	defer st.Close()
+	ctx := context.Background()
+	stop := make(chan struct{})
+	go func() {
+		for i := 0; ; i++ {
+			select {
+			case <-stop:
+				return
+			default:
+			}
+			tx, _ := st.NewWriteOnlyTx(ctx)
+			tx.Set([]byte(fmt.Sprintf("k%03d", i%50)), nil, []byte(fmt.Sprintf("v%d", i)))
+			tx.AsyncCommit(ctx)
+		}
+	}()
+	fmt.Println("indexer goroutines at start:", countIndexers())
+	for c := 0; c < 6; c++ {
+		time.Sleep(50 * time.Millisecond)
+		st.FlushIndexes(100, true)
+		err := st.CompactIndexes()
+		time.Sleep(50 * time.Millisecond)
+		fmt.Printf("after compaction %d (err=%v): indexer goroutines = %d\n", c+1, err, countIndexers())
 	}
-	st.Close()
-	dump(dir)
+	close(stop)
 }
